@@ -22,12 +22,11 @@ Print Assumptions C10_cache_result_as_alone.
 
 Theorem C10_decoder_cache_result_as_alone : forall l live types schedule,
   Forall sample_ok l -> layout_ok (effective l) live -> Forall live types ->
-  (forall a, live a -> (ta_base (effective l) <= a)%N) ->
   forall look, (look = dec_norace (effective l) \/ look = dec_race (effective l)) ->
   forall t q, In (t, Done q) (snd (run look (start types) schedule)) -> q = compile t.
 Proof.
-  intros l live types schedule Hl Hlay Hty Hb look Hlook t q Hin.
-  exact (proj1 (dec_own_program l live types schedule Hl Hlay Hty Hb look Hlook t (Done q) Hin) q eq_refl).
+  intros l live types schedule Hl Hlay Hty look Hlook t q Hin.
+  exact (proj1 (dec_own_program l live types schedule Hl Hlay Hty look Hlook t (Done q) Hin) q eq_refl).
 Qed.
 
 (* Pooled contexts: the source follows the discipline (translator, every function that takes a context) ... *)
